@@ -1,5 +1,5 @@
 SPECIFICATION Spec
 CONSTANTS MaxT = 8  MaxSymbols = 6  MaxZ = 4
   Directed <- DirectedQuick
-INVARIANTS PartitionOk CoversObject Emit
+INVARIANTS PartitionOk CoversObject OffsetsOk Emit
 CHECK_DEADLOCK FALSE
